@@ -1,7 +1,7 @@
 (* C16 -- configured payload limits are enforced early and never by truncation.
    Property statements only; proofs live in Proofs/WsRecvLimits.v.  Model: Model/WsRecv.v. *)
 From Coq Require Import NArith List Bool.
-From AV Require Import Model.Masker Gen.WsConsts Model.WsRecv Proofs.WsRecvProofs Proofs.WsRecvLimits Proofs.WsRecvOversize Proofs.WsRecvSeq Proofs.WsRecvSeqAll.
+From AV Require Import Model.Masker Gen.WsConsts Model.WsRecv Proofs.WsRecvProofs Proofs.WsRecvLimits Proofs.WsRecvOversize Proofs.WsRecvSeq Proofs.WsRecvSeqAll Proofs.WsRecvNoBuf.
 Import ListNotations.
 Open Scope N_scope.
 
@@ -43,6 +43,18 @@ Theorem C16_early_header_only : forall D (cd : codec D) cf, (forall d, d_data cd
   exists s' evs, feed D cd cf (init_state D p d0) (b0 :: b1 :: r) = Done D s' evs /\ judged evs = ([], VFail VTooBig).
 Proof. exact early_too_big. Qed.
 Print Assumptions C16_early_header_only.
+
+(* ... and nothing is buffered afterwards: once failedByMe is set (C16_early: in the step that completes the offending
+   header), for EVERY further stream and segmentation, both failure policies (with failByDrop=false the peer may keep
+   sending the rejected frame's payload and more frames while the closing handshake runs): frame_data and
+   message_data never grow again and no message is delivered -- the payload octets are dropped as they arrive *)
+Theorem C16_nothing_buffered_after_failure : forall D cd cf chunks (s s1 : rstate D) evs,
+  failed (cn D s) = true -> feed_all D cd cf s chunks = Done D s1 evs ->
+  failed (cn D s1) = true /\
+  lenN (fdata D (ms D s1)) <= lenN (fdata D (ms D s)) /\ lenN (mdata D (ms D s1)) <= lenN (mdata D (ms D s)) /\
+  forall p b, ~ In (EMsg p b) evs.
+Proof. exact nothing_buffered_after_failure. Qed.
+Print Assumptions C16_nothing_buffered_after_failure.
 
 (* ---- running total: each data frame header adds its declared length; a new message restarts from 0 ---- *)
 Theorem C16_running_total : forall D cd cf (s : rstate D) f, fb_is_ctl (f_op f) = false ->
